@@ -179,6 +179,7 @@ func corpusCases() []tcase {
 		rinc := int64(r.intn(70000)) - 300
 		add(fmt.Sprintf("cp_RuneBump %s %s", trLeanBytes(rs), leanInt(rinc)), func() string { return hexOf([]byte(corpus.RuneBump(string(rs), int(rinc)))) })
 		add(fmt.Sprintf("cp_RuneCount %s", trLeanBytes(rs)), func() string { return fmt.Sprint(corpus.RuneCount(string(rs))) })
+		add(fmt.Sprintf("cp_UsePt %s %s", leanInt(a), leanInt(b)), func() string { return fmt.Sprint(corpus.UsePt(int(a), int(b))) })
 		sw2 := []string{"a", "bc", "", "b", "abc"}[i%5]
 		add(fmt.Sprintf("cp_StrSwitch %s", trLeanBytes([]byte(sw2))), func() string { return fmt.Sprint(corpus.StrSwitch(sw2)) })
 	}
@@ -223,7 +224,7 @@ func translateCorpus(t *testing.T, fns []string) (string, error) {
 
 var corpusFns = []string{"Kind.IsB", "Pt.Sum", "Pt.Scaled", "U8Arith", "U16Arith", "U32Bits", "U64Mul", "IntArith", "I32Arith", "IntBits", "IntNot",
 	"IntDiv", "IntRem", "IntDivK", "U32DivK", "ShlVar", "ShrVarSigned", "ShlInt", "ShrInt", "ShlConst", "Conv", "ConvSigned", "Consts", "Switch",
-	"Loops", "Index", "Short", "Str", "Two", "Check", "UseTwo", "Structs", "Panics", "VarDecl", "RuneBump", "RuneCount", "StrSwitch"}
+	"Loops", "Index", "Short", "Str", "Two", "Check", "UseTwo", "Structs", "Panics", "VarDecl", "RuneBump", "RuneCount", "StrSwitch", "MkPt", "UsePt"}
 
 func TestCorpusDifferential(t *testing.T) {
 	leanDir, _ := filepath.Abs("../../lean")
